@@ -155,6 +155,7 @@ def main(argv=None):
   coverage = dict(coverage)
   coverage.setdefault('violating_cases_total', len(ctx.violations))
   coverage.setdefault('distinct_violation_signatures', len(by_sig))
+  coverage.setdefault('new_violation_signatures', [v['sig'] for v in new][:300])
   wall = time.time() - ctx.t0
   evidence.write(pid, a.tier, a.seed, mod.LEVEL, coverage, getattr(mod, 'ASSUMPTIONS', []) + ctx.assumptions,
                  wall, len(new), known=len(old))
